@@ -38,7 +38,11 @@ fn process_dec(token: Token) -> Result<Expression, ParserError> {
                 Ok(Expression::DoubleLiteral(u as f64))
             }
         }
-        Err(e) => Err(e.into()),
+        // more digits than fit in 32 bits: still a number, just a bigger one
+        Err(_) => match token.to_string().parse::<f64>() {
+            Ok(f) => Ok(Expression::DoubleLiteral(f)),
+            Err(e) => Err(e.into()),
+        },
     }
 }
 
